@@ -312,21 +312,33 @@ where
         self.storage.log.log_get(key);
         
         let entry = (std::thread::current().id(), key);
+        #[cfg(pdf_rs_pdf_verif)]
+        crate::verif::hook("guard?", key.id);
         {
             debug!("get {key:?} as {}", std::any::type_name::<T>());
             let mut chain = self.chain.lock().unwrap();
             if chain.contains(&entry) {
+                #[cfg(pdf_rs_pdf_verif)]
+                crate::verif::hook("recursive", key.id);
                 bail!("Recursive reference");
             }
             chain.push(entry);
+            #[cfg(pdf_rs_pdf_verif)]
+            crate::verif::hook("pushed", key.id);
         }
         let _defer = Defer(|| {
+            #[cfg(pdf_rs_pdf_verif)]
+            crate::verif::hook("exit?", key.id);
             let mut chain = self.chain.lock().unwrap();
             // other threads may have pushed in between: remove this thread's own entry
             if let Some(i) = chain.iter().rposition(|e| *e == entry) {
                 chain.remove(i);
             }
+            #[cfg(pdf_rs_pdf_verif)]
+            crate::verif::hook("popped", key.id);
         });
+        #[cfg(pdf_rs_pdf_verif)]
+        crate::verif::hook("cache?", key.id);
         
         let res = self.storage.cache.get_or_compute(key, || {
             match self.resolve(key).and_then(|p| T::from_primitive(p, self)) {
